@@ -853,6 +853,12 @@ theorem erase_div_calculus (hI : I * I = -1) {p : ZPoly} (hg : Good p) (hz : Num
 theorem erase_call (hI : I * I = -1) {p : ZPoly} (hz : NumZ p.zero) (v : PyNum) (h : Horner) :
     valOf I (callZ p v h) = call (erase I p) (num I v) h := valOf_callZ hI hz v h
 
+/-- **C07.11f'** composition `p(q)` of two Polys: when the spelled model answers (`.ok`: no exception from a
+    power `q ** k`), the answer erases to the field model's `compose` on the erasures —
+    the summands carry the zero of `q`, the final cast the zero of `p`; both numeric zeros. -/
+theorem erase_compose (hI : I * I = -1) {p q r : ZPoly} (hg : Good q) (hzp : NumZ p.zero) (hzq : NumZ q.zero)
+    (h : composeZ p q = .ok r) : erase I r = compose (erase I p) (erase I q) := erase_composeZ hI hg hzp hzq h
+
 /-- `p.values()` (and `order`, AttributeError included) -/
 theorem erase_values (hI : I * I = -1) {p : ZPoly} (hz : NumZ p.zero) :
     (valuesZ p).map (List.map (valOf I)) = values (erase I p) := erase_valuesZ hI hz
